@@ -35,3 +35,13 @@ Theorem C17_substitution_reaches_every_occurrence : forall sigma t,
   (forall n, In n (tvars t) -> exists u, sigma n = Some u /\ tvars u = []) -> tvars (tsubst sigma t) = [].
 Proof. exact subst_total. Qed.
 Print Assumptions C17_substitution_composes.
+
+(* a field redeclared by a bare annotation takes the value of the nearest ancestor that declared one, looking through a
+   redeclaration without a value in between (class attribute lookup, as in the standard library):
+     class L0: a: int = 0      class L1(L0): a: int = field(kw_only=True)      class L2(L1): a: int      -> L2.a has a default *)
+Example C17_bare_redeclaration_sees_the_nearest_value :
+  let int := EConst "int"%string in
+  map (fun kv => (fst kv, d_kw_only (snd kv), d_has_default (snd kv)))
+      (fields_of [mkLevel false [AField "a" false true int] []; mkLevel false [AField "a" true false int] []; mkLevel false [AField "a" false false int] []])
+  = [("a"%string, false, true)].
+Proof. vm_compute. reflexivity. Qed.
